@@ -2032,7 +2032,7 @@ class BSP:
                     lightmap_size_x, lightmap_size_y,
                     vitamin_flags,
                 ) = face_data
-                texinfo = self.texinfo[texinfo_ind]
+                texinfo = self.texinfo[texinfo_ind] if texinfo_ind >= 0 else None
 
                 # All these values are unused.
                 side = False
@@ -2073,12 +2073,19 @@ class BSP:
                 # we were created from. Additionally, it seems the original
                 # face data has invalid texinfo, so copy ours on top of it.
                 if orig_faces is not None:
-                    orig_face = orig_faces[orig_face_ind]
-                    orig_face.texinfo = texinfo = self.texinfo[texinfo_ind]
+                    # -1 is written for a face without texinfo / original face.
+                    texinfo = self.texinfo[texinfo_ind] if texinfo_ind >= 0 else None
                     try:
-                        orig_face.hammer_id = hammer_id = hammer_ids[i]
+                        hammer_id = hammer_ids[i]
                     except IndexError:
                         hammer_id = None
+                    if orig_face_ind >= 0:
+                        orig_face = orig_faces[orig_face_ind]
+                        orig_face.texinfo = texinfo
+                        if hammer_id is not None:
+                            orig_face.hammer_id = hammer_id
+                    else:
+                        orig_face = None
                 else:
                     orig_face = texinfo = None
                     hammer_id = None
@@ -2136,11 +2143,12 @@ class BSP:
                 ))
         else:
             for face in faces:
-                if face.orig_face is not None and get_orig_face is not None:
-                    orig_ind = get_orig_face(face.orig_face)
+                orig_ind = -1
+                if get_orig_face is not None:
+                    # One ID per face: the reader indexes this array by face number.
                     hammer_ids.append(face.hammer_id or 0)  # Dummy value if not set.
-                else:
-                    orig_ind = -1
+                    if face.orig_face is not None:
+                        orig_ind = get_orig_face(face.orig_face)
                 if face.texinfo is not None:
                     texinfo = add_texinfo(face.texinfo)
                 else:
